@@ -1812,6 +1812,9 @@ def check_decl(decl, namespace=None, template_types=None, trace=False):
     if not namespace:
         # grab global namespace if not passed in.
         namespace = global_namespace
+    while getattr(namespace, "is_block", False):
+        # A block is transparent, parse in the scope which holds it.
+        namespace = namespace.parent
     if template_types:
         global type_specifier
         old_types = type_specifier
